@@ -29,6 +29,12 @@ CLAIMED["C20"] = dict(level="exploration", ref="DESIGN.md §4 C20", technique="d
 CLAIMED["C07"] = dict(level="exploration", ref="DESIGN.md §4 C07", technique="deterministic simulation of the real downlink runtime shared by scripted consumers against a scripted remote lane; session, ordering, supersession and final-state oracles",
      text="Seeded search over arrival times of 1-4 consumers (with/without SYNC and KEEP_LINKED), their command streams, read speeds and drops, remote notification sequences (external changes, unlink), channel capacities and schedules on the real Value/MapDownlinkRuntime; each consumer must get linked, (if asked) synced with a state the lane held, every later event in order, unlinked at close; on the socket side commands arrive in order where order matters (value: totally, map: per key and across a clear), nothing is duplicated or invented, and the lane ends as if every command had been sent; with consumers attached, passing time must not stop the runtime.",
      note="remote lane and consumers are harness code (the harness frames notifications itself); one writer per map key, clears only in single-writer runs")
+CLAIMED["C13"] = dict(level="fault_enumeration", ref="DESIGN.md §4 C13", technique="deterministic op-sequence simulation of both stores against a reference map, with injected reopen, SIGKILL of a real writer process at drawn operation boundaries and node-store hand-over",
+     text="Seeded op sequences (id_for/put/get/delete/update/remove/clear/read_map over 1-3 agents x 1-4 items with adversarial names and keys) on the real in-memory store (incl. Idle/InUse hand-over, abandoned and contended requests) and on real RocksDB (incl. reopen and SIGKILL of a child writer process after a drawn acknowledged operation); after every operation and every boundary each read must equal the reference model, ids must be stable and collision free, every acknowledged operation must survive.",
+     note="RocksDB, its background threads and the file system are real, not simulated; kill points are operation boundaries; no disk-fault injection below RocksDB")
+CLAIMED["C17"] = dict(level="exploration", ref="DESIGN.md §4 C17", technique="op-sequence simulation (plus exhaustive sweeps to depth 5/6) of the real inactivity-vote primitive against a reference model; real threads under the shuttle scheduler (random + PCT) over the same source; system-level time-out probes in the downlink-runtime and agent worlds",
+     text="Random and exhaustive-to-depth vote/rescind/drop/poll sequences for 2 and 3 parties on the real timeout_coord source against a reference bit-set (results, readiness iff unanimity, rescind-pending soundness, stickiness, no orphaned waiter); the same operations on 2-3 shuttle threads plus a receiver under seeded random and PCT schedules with interleaving-sound invariants and deadlock detection; at system level a downlink runtime with attached idle consumers must not stop when time passes.",
+     note="shuttle executes every atomic ordering as SeqCst; futures::AtomicWaker stays real")
 PENDING = {}
 NOT_APPLICABLE = {
  "C15": "pure function of its two string arguments: no schedule, clock, I/O or fault can change the outcome, so there is nothing for a simulator to control (DESIGN.md §4 C15)",
@@ -54,6 +60,7 @@ manifest = {
    "add_only": True,
  },
  "engines": [
+   {"name": "vote-shuttle", "path": "shuttle/", "serves_properties": ["C17"], "kind_free_text": "shuttle 0.9.3 controlled scheduler (seeded RandomScheduler and PctScheduler, replayable schedule files) over the real timeout_coord source compiled with the guarded atomics hook"},
    {"name": "simctl", "path": "sim/", "serves_properties": sorted(CLAIMED.keys()), "kind_free_text": "hand-written deterministic simulator: seeded executor over the product's top-level futures inside a paused, seeded current-thread tokio runtime; scripted peers over the product's byte channels; fault plan; history oracles; replay + minimisation"},
  ],
  "checks": [],
